@@ -1,0 +1,147 @@
+//! Verification hooks into `program` (compiled only with `--cfg hclrs_verif`).
+//!
+//! Read-only views of the compiled program and the machine state, state
+//! injection for rendering tests, and wrappers around the private graph sorter
+//! and memory. Nothing here is reachable from a normal build.
+
+use super::*;
+use verif_hooks::{expr_sexpr, width_str};
+
+fn opt_name(x: &Option<String>) -> String {
+    match *x {
+        Some(ref s) => s.clone(),
+        None => String::from("-"),
+    }
+}
+
+pub fn action_sexpr(action: &Action) -> String {
+    match *action {
+        Action::Assign(ref name, ref expr, width) =>
+            format!("(assign {} {} {})", name, width_str(width), expr_sexpr(expr, false)),
+        Action::ReadProgramRegister { ref number, ref out_port } =>
+            format!("(rdreg {} {})", number, out_port),
+        Action::ReadMemory { ref is_read, ref address, ref out_port, bytes, is_instruction } =>
+            format!("(rdmem {} {} {} {} {})", opt_name(is_read), address, out_port, bytes,
+                    if is_instruction { 1 } else { 0 }),
+        Action::WriteProgramRegister { ref number, ref in_port } =>
+            format!("(wrreg {} {})", number, in_port),
+        Action::WriteMemory { ref is_write, ref address, ref in_port, bytes } =>
+            format!("(wrmem {} {} {} {})", opt_name(is_write), address, in_port, bytes),
+        Action::SetStatus { ref in_wire } =>
+            format!("(status {})", in_wire),
+    }
+}
+
+/// The built-in component table, in vector order.
+pub fn fixed_table() -> Vec<String> {
+    y86_fixed_functions().iter().map(|f| {
+        let ins: Vec<String> = f.in_wires.iter().map(|d| format!("({} {})", d.name, width_str(d.width))).collect();
+        let out = match f.out_wire {
+            Some(ref d) => format!("({} {})", d.name, width_str(d.width)),
+            None => String::from("-"),
+        };
+        format!("(fixed \"{}\" (ins {}) (out {}) (enable {}) (mandatory {}) {})",
+                f.name, ins.join(" "), out, opt_name(&f.disabled_if_false),
+                if f.mandatory { 1 } else { 0 }, action_sexpr(&f.action))
+    }).collect()
+}
+
+pub fn statuses() -> Vec<&'static str> { Y86_STATUSES.to_vec() }
+
+/// (timeout, trace_assignments, trace_fixed_functionality, show_wire_values, group_wire_values,
+///  show_register_banks_with_registers, show_registers_and_memory, show_disassembly)
+pub fn run_defaults() -> (u32, [bool; 7]) {
+    let o = RunOptions::default();
+    (o.timeout, [o.trace_assignments, o.trace_fixed_functionality, o.show_wire_values,
+                 o.group_wire_values, o.show_register_banks_with_registers,
+                 o.show_registers_and_memory, o.show_disassembly])
+}
+
+fn sorted_names<'a, I: Iterator<Item=&'a String>>(it: I) -> Vec<String> {
+    let mut v: Vec<String> = it.cloned().collect();
+    v.sort();
+    v
+}
+
+/// The compiled program: constants, register banks, scheduled actions, debug bookkeeping.
+pub fn compiled(program: &Program) -> String {
+    let mut out = String::from("(prog (consts");
+    for name in sorted_names(program.constants.keys()) {
+        let v = program.constants.get(&name).unwrap();
+        out.push_str(&format!(" ({} {} {})", name, v.bits, width_str(v.width)));
+    }
+    out.push_str(") (banks");
+    for bank in &program.register_banks {
+        out.push_str(&format!(" (bank {} {} {}", bank.label, bank.stall_signal, bank.bubble_signal));
+        for signal in &bank.signals {
+            let d = bank.defaults.get(&signal.1).unwrap();
+            out.push_str(&format!(" (sig {} {} {} {} {})", signal.0, signal.1, width_str(signal.2),
+                                  d.bits, width_str(d.width)));
+        }
+        out.push_str(&format!(" (ndefaults {}))", bank.defaults.len()));
+    }
+    out.push_str(") (actions");
+    for action in &program.actions {
+        out.push(' ');
+        out.push_str(&action_sexpr(action));
+    }
+    out.push_str(") (defaulted");
+    for name in sorted_names(program.defaulted_wires.iter()) {
+        out.push(' ');
+        out.push_str(&name);
+    }
+    out.push_str(") (types");
+    for name in sorted_names(program.wire_to_type.keys()) {
+        out.push_str(&format!(" ({} {:?})", name, program.wire_to_type.get(&name).unwrap()));
+    }
+    out.push_str("))");
+    out
+}
+
+pub fn registers(rp: &RunningProgram) -> Vec<u64> { rp.registers.clone() }
+
+pub fn set_register(rp: &mut RunningProgram, index: usize, value: u64) { rp.registers[index] = value; }
+
+pub fn memory(rp: &RunningProgram) -> Vec<(u64, u8)> {
+    rp.memory.data.iter().map(|(&k, &v)| (k, v)).collect()
+}
+
+pub fn set_memory_byte(rp: &mut RunningProgram, address: u64, value: u8) {
+    rp.memory.data.insert(address, value);
+}
+
+pub fn set_value(rp: &mut RunningProgram, name: &str, value: WireValue) {
+    rp.values.insert(String::from(name), value);
+}
+
+pub fn last_status(rp: &RunningProgram) -> Option<u8> { rp.last_status }
+
+pub fn memory_from(bytes: &[(u64, u8)]) -> Memory {
+    let mut m = Memory::new();
+    for &(k, v) in bytes {
+        m.data.insert(k, v);
+    }
+    m
+}
+
+pub fn memory_bytes(m: &Memory) -> Vec<(u64, u8)> {
+    m.data.iter().map(|(&k, &v)| (k, v)).collect()
+}
+
+pub fn memory_dump(m: &Memory) -> String {
+    let mut result: Vec<u8> = Vec::new();
+    m.dump_memory_y86(&mut result).expect("unexpected error while dumping memory");
+    String::from_utf8_lossy(result.as_slice()).into_owned()
+}
+
+/// `Graph::topological_sort` on an integer graph built by `add_node` / `insert` in the given order.
+pub fn toposort(nodes: &[u32], edges: &[(u32, u32)]) -> Result<Vec<u32>, Vec<u32>> {
+    let mut graph: Graph<u32> = Graph::new();
+    for &n in nodes {
+        graph.add_node(n);
+    }
+    for &(a, b) in edges {
+        graph.insert(a, b);
+    }
+    graph.topological_sort()
+}
